@@ -46,8 +46,8 @@ CHECKS.update({
    text="No channel exists through which struct content reaches an outcome except pointerstructure.Get under the evaluator's tag: (1) an SSA walk over every function reachable from Evaluate/Execute finds no call of Field*/NumField/IsZero/DeepEqual/Equal/fmt.Sprint-style observers; (2) every content observer that is called carries a precondition (discharged by SMT) that excludes kind Struct - Len, Int/Uint/Float/Bool, String (required to be of kind String), Convert, MapIndex, Index; (3) getValue/evaluateNotPresent are verified to pass exactly (tag name, hook) of the evaluator to every Get call. Non-interference then follows on paper from the assumed contract of Get (A-PS).",
    note=BASE_TRUST + "; item (3) of the argument - Get never returns hidden content - is the dependency's (A-PS).", tech=TECH+" + SSA read-discipline walk", ref="DESIGN.md §6 C08"),
  "C10": dict(cat="proof",
-   text="CreateEvaluator and CreateFilter are verified against: evaluator xor error; error == nil exactly when grammar.Parse accepts the same bytes under the forwarded budget; a returned evaluator satisfies the precondition of Evaluate (wf tree, cache invariant) and carries the folded options; the empty-string nil Filter. (*parser).parse is verified together with its deferred recover closure (defer/recover rule: a panic raised anywhere after the defer statement - explicit, from a callee, or from an implicit run-time check - is modelled by a block that starts from the heap at the defer with everything the rest of the body can write havocked): no panic leaves parse when recover is on, and a recovered panic is reported as (nil, non-nil error); errList.add/err/dedupe and addErr/addErrAt carry the contracts this needs. That a SUCCESSFUL parse yields a non-nil, well-formed Expression is derived by the grammar typing obligations (typing:*): rule contracts on the table `var g` (//@ rule R(v, n) yields ...), checked on every run against the table as read from grammar.go and the WP-verified action contracts - at every one of the 50 action sites the label values satisfy the action's requires (no failing type assertion or slice expression), every alternative establishes its rule's value type, and the entry rule's type implies what Parse promises (wfS: children non-nil, a match value present unless the operator is `is [not] empty`); each goal has a vacuity canary. This derivation is relative to the engine's value passing (A-ENGINE) and A-ACYCLIC; that accept/reject is a function of bytes and budget remains assumed on grammar.Parse; newParser/setOptions and the option closures are verified (recover flag on unless Recover(false) is passed, which CreateEvaluator never does). Arbitrary bytes: bounded run (all byte strings <= 2, <= 3 over 31 bytes, token sequences <= 3) on a violation and in the thorough tier.",
-   note=BASE_TRUST + "; A-ENGINE (value passing of the PEG engine: sequence/label/choice/repetition semantics, c.text), A-ACYCLIC, A-STACK.", tech=TECH, ref="DESIGN.md §6 C10"),
+   text="CreateEvaluator and CreateFilter are verified against: evaluator xor error; error == nil exactly when grammar.Parse accepts the same bytes under the forwarded budget; a returned evaluator satisfies the precondition of Evaluate (wf tree, cache invariant) and carries the folded options; the empty-string nil Filter. (*parser).parse is verified together with its deferred recover closure (defer/recover rule: a panic raised anywhere after the defer statement - explicit, from a callee, or from an implicit run-time check - is modelled by a block that starts from the heap at the defer with everything the rest of the body can write havocked): no panic leaves parse when recover is on, and a recovered panic is reported as (nil, non-nil error); errList.add/err/dedupe and addErr/addErrAt carry the contracts this needs. That a SUCCESSFUL parse yields a non-nil, well-formed Expression is derived by the grammar typing obligations (typing:*): rule contracts on the table `var g` (//@ rule R(v, n) yields ...), checked on every run against the table as read from grammar.go and the WP-verified action contracts - at every one of the 50 action sites the label values satisfy the action's requires (no failing type assertion or slice expression), every alternative establishes its rule's value type, and the entry rule's type implies what Parse promises (wfS: children non-nil, a match value present unless the operator is `is [not] empty`); each goal has a vacuity canary. The value passing this derivation relies on is itself verified on the engine code: parseExpr, parseRule and the 15 node methods of grammar.go are proved (WP, quantified loop invariants) against the relation yields(node, value) of spec/27-peg.smt2 (sequence -> []any of its parts' values in order, * + -> []any, ? -> value or nil, label / rule reference / choice -> the sub-value, predicates -> nil, matchers -> []byte, failed match -> nil). Still assumed (A-ENGINE): the label-to-parameter hand-over through the vstack maps, rule lookup by name, c.text, and which text is matched; A-ACYCLIC; that accept/reject is a function of bytes and budget remains assumed on grammar.Parse; newParser/setOptions and the option closures are verified (recover flag on unless Recover(false) is passed, which CreateEvaluator never does). Arbitrary bytes: bounded run (all byte strings <= 2, <= 3 over 31 bytes, token sequences <= 3) on a violation and in the thorough tier.",
+   note=BASE_TRUST + "; A-ENGINE (label hand-over through the vstack maps, rule lookup by name, c.text, recognition), A-ACYCLIC, A-STACK.", tech=TECH, ref="DESIGN.md §6 C10"),
  "C11": dict(cat="proof",
    text="Integer invariants on the real engine: parseExpr adds exactly one step and panics only when the step exceeds the budget; all 18 engine methods keep ExprCnt <= maxExprCnt, never decrease ExprCnt and never change the budget (WP with loop invariants; helpers without contracts are abstracted by the heap keys their code can write). SSA walk over the package: the counter is written only in parseExpr, the budget only in newParser/MaxExpressions$1 and read only there and at the guard. Forwarding: WithMaxExpressions(n) -> MaxExpressions(n) iff n != 0 -> maxExprCnt (0 -> MaxUint64). (*parser).parse and its deferred recover closure are verified: the budget panic raised by parseExpr ends as (nil, error), never as a success. The three clauses of the property follow by the lock-step lemma (spec/C11.md, on paper).",
    note=BASE_TRUST + "; A-ARITH-1 (no 2^64 wrap); bounded relational run through the verif-only accessor ParseCounted in the thorough tier.", tech=TECH+" + SSA field-frame walk", ref="DESIGN.md §6 C11"),
